@@ -36,15 +36,36 @@ PKGS = {  # abstract package id -> (import path, package name)
 }
 MAX_SOLO = 48
 SEM = ("pos", "other", "srckind", "target", "level", "place")      # dimensions the contract speaks about (TLC state)
-OBS = ("templ", "listing", "fmt")                                   # how the case is observed / spelled (TLC constants)
+OBS = ("templ", "listing", "fmt", "kinds")                                   # how the case is observed / spelled (TLC constants)
 DIMS = SEM + OBS
 
+SRC_KINDS = {"s": "struct{ A int }", "b": "string", "i": "interface{ Ping() }"}
+DST_KINDS = {"s": "struct{ C int }", "i": "interface{ Pong() string }", "m": "map[string]int", "p": None}   # p: alias of a pointer
+
+
+def _decl_sources():
+    return "".join(f"type T_{k} {v}\n\ntype TA_{k} = T_{k}\n\n" for k, v in SRC_KINDS.items())
+
+
+def _decl_targets(name):
+    out = "type P struct{ Z int }\n\n"
+    for k, v in DST_KINDS.items():
+        out += f"type {name}_{k} = *P\n\n" if v is None else f"type {name}_{k} {v}\n\n"
+    return out
+
+
+# the replaced / replacing types exist in several KINDS (struct, named basic, interface / struct, interface, map, alias of a
+# pointer); a case picks one pair (observation dimension "kinds"), the abstract names T, TA, R, RA, H, D are concretised as
+# T_s, R_i, ...; the contract does not depend on it, what the templates derive from the type (nil guards, zero values) does
 SHARED = {
-    "orig/foo/t.go": "package foo\n\ntype T struct{ A int }\n\ntype U struct{ B int }\n\ntype TA = T\n",
-    "alt/bar/t.go": f'package bar\n\nimport "{MOD}/orig/foo"\n\ntype R struct{{ C int }}\n\ntype R2 struct{{ G int }}\n\n// RA is an alias: identical to the original type\ntype RA = foo.T\n',
-    "third/legacy/h.go": f'package legacy\n\nimport "{MOD}/orig/foo"\n\n// H is an alias in a third package; it never has a replace-type entry of its own\ntype H = foo.T\n',
-    "alt2/foo/t.go": "package foo\n\ntype R struct{ D int }\n\ntype R2 struct{ H int }\n\ntype T struct{ E int }\n\ntype TA = T\n",
+    "orig/foo/t.go": "package foo\n\n" + _decl_sources() + "type U struct{ B int }\n",
+    "alt/bar/t.go": f'package bar\n\nimport "{MOD}/orig/foo"\n\n' + _decl_targets("R") + "type R2 struct{ G int }\n\n" +
+                    "".join(f"// RA_{k} is an alias: identical to the original type\ntype RA_{k} = foo.T_{k}\n\n" for k in SRC_KINDS),
+    "alt2/foo/t.go": "package foo\n\n" + _decl_targets("R") + "type R2 struct{ H int }\n\n" + _decl_sources(),
+    "third/legacy/h.go": f'package legacy\n\nimport "{MOD}/orig/foo"\n\n' +
+                         "".join(f"// H_{k} is an alias in a third package; it never has a replace-type entry of its own\ntype H_{k} = foo.T_{k}\n\n" for k in SRC_KINDS),
 }
+KINDED = re.compile(r"^(T|TA|R|RA|H|D)_[a-z]$")
 
 # probe template: per mock and method the rendered parameter / return type strings, and .Imports (path + qualifier)
 PROBE_FILE = vlib.VERIF / "probes" / "replacetype" / "sig.templ"
@@ -59,7 +80,7 @@ def select_cases(rows, obsdims, rng, n, predicted_quota, all_rows=False):
     def full(sem):
         t = rng.choice(obsdims["templ"])
         f = "noop" if t == "probe" else rng.choice(obsdims["fmt"])
-        return tuple(sem) + (t, rng.choice(obsdims["listing"]), f)
+        return tuple(sem) + (t, rng.choice(obsdims["listing"]), f, rng.choice(obsdims["kinds"]))
 
     normal = [r for r in rows if not r[1]]
     pred = [r for r in rows if r[1]]
@@ -127,23 +148,23 @@ def select_cases(rows, obsdims, rng, n, predicted_quota, all_rows=False):
 
 
 # ---------------------------------------------------------------------------------------------- concretisation
-def go_type(t, quals):
+def go_type(t, quals, cn=lambda n: n):
     k = t["k"]
     if k == "named":
-        return quals[t["p"]] + t["n"]
+        return quals[t["p"]] + cn(t["n"])
     if k == "basic":
         return t["n"]
     a = t["a"]
     if k == "ptr":
-        return "*" + go_type(a[0], quals)
+        return "*" + go_type(a[0], quals, cn)
     if k == "slice":
-        return "[]" + go_type(a[0], quals)
+        return "[]" + go_type(a[0], quals, cn)
     if k == "map":
-        return "map[" + go_type(a[0], quals) + "]" + go_type(a[1], quals)
+        return "map[" + go_type(a[0], quals, cn) + "]" + go_type(a[1], quals, cn)
     if k == "chan":
-        return "chan " + go_type(a[0], quals)
+        return "chan " + go_type(a[0], quals, cn)
     if k == "func":
-        return "func(" + go_type(a[0], quals) + ") " + go_type(a[1], quals)
+        return "func(" + go_type(a[0], quals, cn) + ") " + go_type(a[1], quals, cn)
     raise MachineryError("cannot concretise type term " + json.dumps(t))
 
 
@@ -168,6 +189,15 @@ class Case:
         self.path_to_id = {v[0]: k for k, v in PKGS.items()}
         self.path_to_id[self.dstpath] = "dst"
 
+    def cn(self, n):
+        """abstract type name -> concrete name of the kind pair of this case (T -> T_s, R -> R_i, ...)"""
+        sk, tk = self.kinds[0], self.kinds[1]
+        if n in ("T", "TA", "RA", "H"):
+            return f"{n}_{sk}"
+        if n in ("R", "D"):
+            return f"{n}_{tk}"
+        return n
+
     def target_pkg(self):
         """(import path, package name) of the replacement"""
         p = self.rec["to"]["p"]
@@ -179,6 +209,11 @@ class Case:
         s = {d: getattr(self, d) for d in DIMS}
         s.update({"kind": kind, "detail": detail})
         return s
+
+    def d_decl(self):
+        v = DST_KINDS[self.kinds[1]]
+        name = self.cn("D")
+        return f"type DP struct{{ Z int }}\n\ntype {name} = *DP" if v is None else f"type {name} {v}"
 
     # ---- source files
     def sources(self):
@@ -195,7 +230,7 @@ class Case:
                     t = p["t"]
                     for pk in refs(t):
                         used.add(pk)
-                    ts = go_type(t, quals)
+                    ts = go_type(t, quals, self.cn)
                     if p["variadic"]:
                         ts = "..." + ts[2:]
                     nm = p["name"].replace("$q", qname)
@@ -204,7 +239,7 @@ class Case:
                 for t in m["results"]:
                     for pk in refs(t):
                         used.add(pk)
-                    rs.append(go_type(t, quals))
+                    rs.append(go_type(t, quals, self.cn))
                 res = "" if not rs else (" " + rs[0] if len(rs) == 1 else " (" + ", ".join(rs) + ")")
                 lines.append(f"\t{m['name']}({', '.join(ps)}){res}")
             lines.append("}")
@@ -222,21 +257,22 @@ class Case:
         if imps:
             src += ["import ("] + imps + [")", ""]
         if self.target == "dstpkg" and self.place == "inpkg":
-            src += ["// D is a replacement type living in the mock's own (= the source) package", "type D struct{ F int }", ""]
+            src += ["// D is a replacement type living in the mock's own (= the source) package", self.d_decl(), ""]
         src += lines
         files[f"{self.id}/src/src.go"] = "\n".join(src)
         if self.target == "dstpkg" and self.place == "separate":
-            files[f"{self.id}/mocks/own.go"] = "package mocks\n\n// D is a replacement type living in the mock's own destination package\ntype D struct{ F int }\n"
+            files[f"{self.id}/mocks/own.go"] = "package mocks\n\n// D is a replacement type living in the mock's own destination package\n" + self.d_decl() + "\n"
         return files
 
     # ---- configuration
     def mapping(self, second=False):
         """the replace-type entry of the case; second: the same source type mapped to the OTHER target"""
+        key = self.cn(self.rec["key"]["n"])
         if second:
             to = self.rec["to2"]
-            return {PKGS["orig"][0]: {self.rec["key"]["n"]: {"pkg-path": PKGS[to["p"]][0], "type-name": to["n"]}}}
+            return {PKGS["orig"][0]: {key: {"pkg-path": PKGS[to["p"]][0], "type-name": self.cn(to["n"])}}}
         tp = self.target_pkg()[0]
-        return {PKGS["orig"][0]: {self.rec["key"]["n"]: {"pkg-path": tp, "type-name": self.rec["to"]["n"]}}}
+        return {PKGS["orig"][0]: {key: {"pkg-path": tp, "type-name": self.cn(self.rec["to"]["n"])}}}
 
     def pkg_config(self, with_setting, probe_path, force=False):
         conf = {"all": True, "dir": self.dir, "pkgname": self.pkgname, "filename": self.filename,
@@ -457,7 +493,7 @@ def observe_all(ctx, drv, tree, cases, label):
                            "results": [abstract(t, c) for t in m["results"]], "variadic": m["variadic"]})
             mocks.append({"struct": mk["struct"], "iface": mk["iface"], "methods": ms})
         imps = sorted({c.path_to_id[i["path"]] for i in fo["imports"] if i["path"] in c.path_to_id})
-        obs[cid] = {"mocks": mocks, "imports": imps, "raw_imports": fo["imports"]}
+        obs[cid] = {"mocks": mocks, "imports": imps, "raw_imports": fo["imports"], "raw_methods": fo["methods"]}
     for cid, eo in out["exprs"].items():
         c = by_id[cid]
         if eo["error"]:
@@ -489,7 +525,10 @@ def observe_all(ctx, drv, tree, cases, label):
 
 def abstract(t, c):
     """concrete import paths -> abstract package ids of the case (unknown paths stay as they are)"""
-    return {"k": t["k"], "p": c.path_to_id.get(t["p"], t["p"]), "n": t["n"], "a": [abstract(x, c) for x in t["a"]]}
+    n = t["n"]
+    if t["k"] == "named" and KINDED.match(n) and getattr(c, "kinds", None) and c.cn(n.rsplit("_", 1)[0]) == n:
+        n = n.rsplit("_", 1)[0]
+    return {"k": t["k"], "p": c.path_to_id.get(t["p"], t["p"]), "n": n, "a": [abstract(x, c) for x in t["a"]]}
 
 
 def matches(o, oc):
@@ -731,8 +770,9 @@ def process_batch(ctx, binp, drv, probe_path, cases, bi, thorough, timing):
 
 # ---------------------------------------------------------------------------------------------- no-leak family
 LPKG = {"R": ("lk/r", "r"), "Rin": ("lk/r/inner", "inner"), "S": ("lk/s", "s")}      # abstract package -> (dir, name)
-LEAK_SRC = "package %s\n\nimport \"" + MOD + "/orig/foo\"\n\ntype I interface {\n\tM(x foo.T, u foo.U) (foo.T, foo.U)\n\tZ(s string) int\n}\n"
-LTO = {"T": "R", "U": "R2"}
+LEAK_SRC = "package %s\n\nimport \"" + MOD + "/orig/foo\"\n\ntype I interface {\n\tM(x foo.T_s, u foo.U) (foo.T_s, foo.U)\n\tZ(s string) int\n}\n"
+LTO = {"T": "R_s", "U": "R2"}
+LKEY = {"T": "T_s", "U": "U"}
 
 
 class LeakUnit:
@@ -748,6 +788,10 @@ class LeakUnit:
         self.path_to_id = {v[0]: k for k, v in PKGS.items()}
         self.path_to_id[self.dstpath] = "dst"
         self.rec = lc.rec["pkgs"][p]
+        self.kinds = "ss"
+
+    def cn(self, n):
+        return {"T": "T_s", "R": "R_s"}.get(n, n)
 
 
 class LeakCase:
@@ -763,7 +807,7 @@ class LeakCase:
         return ",".join(f"{lv}:{k}" for lv, k in self.writes)
 
     def rt(self, level):
-        m = {k: {"pkg-path": PKGS["alt"][0], "type-name": LTO[k]} for lv, k in self.writes if lv == level}
+        m = {LKEY[k]: {"pkg-path": PKGS["alt"][0], "type-name": LTO[k]} for lv, k in self.writes if lv == level}
         return {PKGS["orig"][0]: m} if m else None
 
     def config(self, with_setting, probe_path):
@@ -1011,7 +1055,7 @@ def run(ctx):
         n = 6000 if thorough else 280
         chosen, uncovered = select_cases(rows, obsdims, ctx.rng, n, 40 if thorough else 6)
         for d in unexpected_pred[:20]:
-            chosen.append(tuple(d) + ("testify", "min", "gofmt"))
+            chosen.append(tuple(d) + ("testify", "min", "gofmt", "ss"))
     if uncovered:
         raise MachineryError(f"sampling left {uncovered} dimension-value pairs uncovered")
     sem_wanted = sorted({d[:len(SEM)] for d in chosen})
